@@ -91,4 +91,10 @@ TEXTS = {
                             "direct left recursion without predicates is additionally run as its iterative twin (b1/../bm)(a1/../an)* on the plain template, which must match exactly the same prefix. Kernel-checked lemmas on the loop of the model: a failing or non-extending growth attempt is dropped with errors and store restored, an extending one becomes the seed, "
                             "the recursive reference is answered from the seed, adopted growths strictly extend, and termination under a budget (C16_terminates covers left-recursive grammars). The equality 'seed growing = iteration' itself is not proved. Known finding D6 (memo hit drops #{} effects)."),
                 level_note=RT_NOTE + " Level 'other': differential + partial proof."),
+    "C18": dict(technique="race-detector stress of all 16 template variants (solo vs concurrent results) + Lean model of the pool discipline",
+                design_ref="DESIGN.md §5 C18", engine="lean-rt",
+                level_text=("Execution: -race builds of the 16 host parsers; groups of cases sharing one grammar (different inputs, options, initial stores with marker keys) are parsed alone and then by 2k goroutines behind a barrier for 20-30 rounds; every concurrent result must equal the solo result and the race detector must stay silent. "
+                            "Kernel-checked (Properties/C18.lean, a model of statePool with map identities): under the Discard discipline every pooled map is empty and unowned (invariant of get/alloc/discard, hence of every interleaving), so cloneState yields exactly the caller's live contents whichever map the pool hands out, and no operation of one parse changes a map owned by another. "
+                            "In the runtime model all other parser state is a value threaded through the functions (no shared variable exists), and the grammar is read-only."),
+                level_note=("Data races as the Go memory model defines them, sync.Pool's internals and the scheduler are outside any Lean model: that part is searched for by the race detector over the explored schedules only. The pool model is not tied to the Go code by a translator; the seeded-defect experiments (Discard without clearing, extra Put) show the stress harness detects such deviations.")),
 }
